@@ -3,6 +3,8 @@ Correspondence: random and probing histories on the real MemoryCache vs the Coq 
 (Storage/Cache.v), compared after every operation inside Coq; plus direct checks of the
 property's own observables on the implementation."""
 import gc
+import os
+import shutil
 import random
 import struct
 import sys
@@ -369,6 +371,68 @@ def run(tier, seed):
             metas.append((budget, ops, steps))
             if len(rep.samples) < 3 and stats["evictions"] > 0:
                 rep.samples.append({"budget": budget, "ops": ops[:12], "evictions": stats["evictions"]})
+        # the same invariants through a storage backend: single calls, batches with repeated elements, warm store with a
+        # cold cache (backend re-opened), forgetting; after every step the cache's accounts must be honest and every resident
+        # entry listed exactly once in the LRU list (the invariant of the model, theorem C06_invariant)
+        from . import fnlib, fnmod
+        from twosigma.memento.storage_filesystem import FilesystemStorageBackend
+        agg["backend_level_steps"] = 0
+        for bi in range(8 if tier == "quick" else 120):
+            path = os.path.join(scratch, "bb%d" % bi)
+            budget_mb = rng.choice([2048, 4096, 20000]) / (1024.0 * 1024.0)
+
+            def mkb():
+                bk = FilesystemStorageBackend(path=path, memory_cache_mb=budget_mb)
+                fnlib.set_env(m, scratch, {"fc": (bk, None)})
+                return bk
+            bk = mkb()
+            specs = [{"id": 600000 + bi * 100 + k, "ret": {"k": "bytes", "v": "ab" * rng.choice([100, 300, 700, 1500])}} for k in range(5)]
+            hist = []
+            for si in range(rng.randint(4, 14)):
+                kind = rng.choice(["call", "batch", "batch", "reopen", "forget"])
+                try:
+                    if kind == "call":
+                        k = rng.randrange(5)
+                        hist.append(["call", k])
+                        fnmod.n0(specs[k])
+                    elif kind == "batch":
+                        ks = [rng.randrange(5) for _ in range(rng.randint(2, 4))]
+                        if rng.random() < 0.6:
+                            ks.append(rng.choice(ks))       # a repeated element
+                        hist.append(["batch", ks])
+                        fnmod.n0.call_batch([{"spec": specs[k]} for k in ks])
+                    elif kind == "reopen":
+                        hist.append(["reopen"])
+                        bk = mkb()
+                    else:
+                        k = rng.randrange(5)
+                        hist.append(["forget", k])
+                        fnmod.n0.forget(specs[k])
+                except Exception as e:
+                    rep.violation("C06:backend-level-step-raised", "%s: %s" % (type(e).__name__, str(e)[:150]), {"history": hist})
+                    break
+                agg["backend_level_steps"] += 1
+                c = bk._memory_cache
+                acc = sum(e.obj_size for e in c.cache.values())
+                meta = {"budget_bytes": c.memory_cache_bytes, "history(call k / batch ks / reopen / forget k)": hist, "result_bytes": [len(sp["ret"]["v"]) // 2 for sp in specs],
+                        "memory_usage": c.memory_usage, "resident": sorted(c.cache), "lru_list": list(c.lru_deque)}
+                if c.memory_usage != acc:
+                    rep.violation("C06:usage-not-sum-of-residents", "through the storage backend: memory_usage %d, resident entries account for %d" % (c.memory_usage, acc), meta)
+                    break
+                if c.memory_usage > c.memory_cache_bytes:
+                    rep.violation("C06:usage-exceeds-budget", "through the storage backend: memory_usage %d > budget %d" % (c.memory_usage, c.memory_cache_bytes), meta)
+                    break
+                if sorted(c.lru_deque) != sorted(c.cache):
+                    rep.violation("C06:lru-list-differs-from-resident-set", "through the storage backend: the LRU list %r does not list every resident entry exactly once" % (list(c.lru_deque),), meta)
+                    break
+            else:
+                for sp in specs:
+                    fnmod.n0.forget(sp)
+                c = bk._memory_cache
+                if c.memory_usage != 0 or len(c.cache) != 0 or len(c.lru_deque) != 0:
+                    rep.violation("C06:usage-not-zero-after-forgetting-everything", "after forgetting every call one by one: memory_usage=%d resident=%d lru=%d" % (c.memory_usage, len(c.cache), len(c.lru_deque)),
+                                  {"history": hist})
+            shutil.rmtree(path, ignore_errors=True)
         try:
             results = C.run_coq_cases("c06", HEADER, cases, "check_case ef", case_type="Z * list rec_step")
         except RuntimeError as e:
